@@ -13,3 +13,28 @@ pub use super::spaces::verif as spaces;
 pub use super::stats::verif as stats;
 pub use super::streams::verif as streams;
 pub use super::timer::verif as timer;
+
+/// C08.a: idle-timeout negotiation (RFC 9000 §10.1): the minimum of the values that are present
+/// and non-zero, None iff neither side set one; commutative.
+pub fn negotiate_idle(has_x: bool, x: u16, has_y: bool, y: u16) -> u32 {
+    let xo = if has_x { Some(VarInt(x as u64)) } else { None };
+    let yo = if has_y { Some(VarInt(y as u64)) } else { None };
+    let r = negotiate_max_idle_timeout(xo, yo);
+    let r2 = negotiate_max_idle_timeout(yo, xo);
+    assert!(r == r2);
+    let xe = if has_x && x != 0 { Some(x) } else { None };
+    let ye = if has_y && y != 0 { Some(y) } else { None };
+    let want = match (xe, ye) {
+        (None, None) => None,
+        (Some(a), None) | (None, Some(a)) => Some(a),
+        (Some(a), Some(b)) => Some(a.min(b)),
+    };
+    match (r, want) {
+        (None, None) => 2,
+        (Some(d), Some(ms)) => {
+            assert!(d == Duration::from_millis(ms as u64));
+            1
+        }
+        _ => panic!("negotiated idle timeout disagrees with RFC 9000 10.1"),
+    }
+}
